@@ -390,3 +390,115 @@ func inSet(s string, set ...string) bool {
 	}
 	return false
 }
+
+// reachCache memoises "function f reaches a callee satisfying pred within depth frames".
+type reachCache struct {
+	w     *core.World
+	pred  func(*types.Func) bool
+	depth int
+	memo  map[*types.Func]bool
+}
+
+func newReach(w *core.World, depth int, pred func(*types.Func) bool) *reachCache {
+	return &reachCache{w: w, pred: pred, depth: depth, memo: map[*types.Func]bool{}}
+}
+
+// Hits reports whether a call to f is, or may lead to, a call satisfying pred.
+func (rc *reachCache) Hits(f *types.Func) bool {
+	if f == nil {
+		return false
+	}
+	if rc.pred(f) {
+		return true
+	}
+	if v, ok := rc.memo[f]; ok {
+		return v
+	}
+	rc.memo[f] = false
+	var targets []*types.Func
+	if core.IsIfaceMethod(f) {
+		targets = rc.w.Impls(f)
+	} else {
+		targets = []*types.Func{f}
+	}
+	hit := false
+	for _, t := range targets {
+		fi := rc.w.Info(t)
+		if fi == nil || rc.w.IsTestFile(fi.Decl.Pos()) {
+			continue
+		}
+		if rc.w.CallPath(fi, rc.pred, rc.depth) != nil {
+			hit = true
+			break
+		}
+	}
+	rc.memo[f] = hit
+	return hit
+}
+
+// driverIface returns database/sql/driver's interface by name through any repo package importing it.
+func driverIface(w *core.World, name string) *types.Interface {
+	for _, p := range w.Pkgs {
+		for _, imp := range p.Types.Imports() {
+			if imp.Path() == pDriver {
+				if o := imp.Scope().Lookup(name); o != nil {
+					i, _ := o.Type().Underlying().(*types.Interface)
+					return i
+				}
+			}
+		}
+	}
+	return nil
+}
+
+// implementsDriver reports whether f is a method of a repo type implementing the named database/sql/driver interface.
+func implementsDriver(w *core.World, f *types.Func, iface string) bool {
+	n := core.RecvNamed(f)
+	it := driverIface(w, iface)
+	if n == nil || it == nil {
+		return false
+	}
+	if _, isI := n.Underlying().(*types.Interface); isI {
+		return false
+	}
+	isM := false
+	for i := 0; i < it.NumMethods(); i++ {
+		if it.Method(i).Name() == f.Name() {
+			isM = true
+		}
+	}
+	if !isM {
+		return false
+	}
+	return types.Implements(types.NewPointer(n), it) || types.Implements(n, it)
+}
+
+// driverImplsIn lists the named types of pkgRel implementing the driver interface.
+func driverImplsIn(w *core.World, pkgRel, iface string) []*types.Named {
+	it := driverIface(w, iface)
+	if it == nil {
+		return nil
+	}
+	var out []*types.Named
+	for _, n := range w.Implementers(it) {
+		if n.Obj().Pkg().Path() == core.Module+"/"+pkgRel && !w.IsTestFile(n.Obj().Pos()) {
+			out = append(out, n)
+		}
+	}
+	return out
+}
+
+func isDriverTxCommit(f *types.Func) bool   { return stdMethod(f, pDriver, "Tx", "Commit") }
+func isDriverTxRollback(f *types.Func) bool { return stdMethod(f, pDriver, "Tx", "Rollback") }
+
+// boolArg returns the constant boolean value of argument i of a call.
+func boolArg(info *types.Info, call *ast.CallExpr, i int) (val, ok bool) {
+	if i >= len(call.Args) {
+		return false, false
+	}
+	v := core.ConstVal(info, call.Args[i])
+	if v == nil || v.Kind() != constant.Bool {
+		return false, false
+	}
+	return constant.BoolVal(v), true
+}
